@@ -123,7 +123,7 @@ static void build_world(World &W, Rng &r, bool spd) {
     { auto x = vf::random_vector(W.n, r); x[r.next() % W.n] = std::numeric_limits<double>::quiet_NaN(); W.X0.push_back(x); }    // id 3: NaN guess
 }
 
-static std::vector<Step> make_script(Rng &r, int len, bool is_amg) {
+static std::vector<Step> make_script(Rng &r, int len, bool is_amg, int forced_bad) {
     std::vector<Step> s;
     for (int k = 0; k < len; ++k) {
         Step st; double u = r.uni();
@@ -140,6 +140,11 @@ static std::vector<Step> make_script(Rng &r, int len, bool is_amg) {
         else { st.kind = REBUILD; st.rhs = (int)r.range(0, 1); }
         s.push_back(st);
     }
+    // every script contains one failing call of a kind that rotates with the script index (NaN rhs, Inf rhs, overflowing rhs, NaN guess, singular
+    // alternative matrix) somewhere in the middle, and ends with an ordinary solve, so that each configuration sees each kind of failure followed by a solve
+    if (len >= 3) { Step st; if (forced_bad <= 3) { st.kind = SOLVE_BAD; st.bad = forced_bad; st.rhs = forced_bad == 0 ? 5 : forced_bad == 1 ? 6 : forced_bad == 2 ? 7 : (int)r.range(0, 3); st.x0 = forced_bad == 3 ? 3 : (int)r.range(0, 1); }
+        else { st.kind = SOLVE_SINGULAR_MATRIX; st.rhs = (int)r.range(0, 3); st.x0 = (int)r.range(0, 1); }
+        s[1 + r.range(0, len - 3)] = st; Step last; last.kind = SOLVE; last.rhs = (int)r.range(0, 3); last.x0 = (int)r.range(0, 2); s[len - 1] = last; }
     return s;
 }
 
@@ -171,7 +176,7 @@ static void sub_history() {
         bool spd = std::string(sv.cfg.type) == "cg" || pk == 3 || r.coin(0.4);        // CG and the Chebyshev preconditioner want an SPD matrix
         World W; build_world(W, r, spd);
         int len = vf::thorough() ? (int)r.range(4, 20) : 6; bool is_amg = pk <= 2;
-        std::vector<Step> script = make_script(r, len, is_amg);
+        std::vector<Step> script = make_script(r, len, is_amg, si % 5);
         size_t maxiter = (size_t)r.pick(std::vector<int>{9, 25, 100}); double tol = 1e-8;
         ptree prm; put_precond(prm, pk); put_solver(prm, sv, r, maxiter, tol);
         std::string sname = vf::cfg_name(sv.cfg) + (sv.lgmres_keep ? "(always_reset=false)" : ""); std::string kinds; for (auto &st : script) { kinds += KNAME[st.kind]; kinds += ","; }
@@ -201,6 +206,7 @@ static void sub_history() {
                 Result b; { Solver fresh(W.Aro.tuple(), prm); if (rebuilt >= 0) fresh.precond().rebuild((rebuilt ? W.A3ro : W.A2ro).tuple());
                     b = exec(fresh, W, st, guess); }
                 std::string diff = compare(a, b);
+                if (vf::opt_int("debug", 0)) fprintf(stderr, "  step %zu %-24s reused: threw=%d '%s' iters=%zu res=%g | fresh: threw=%d iters=%zu res=%g | %s\n", k, step.c_str(), (int)a.threw, a.what.c_str(), a.iters, a.res, (int)b.threw, b.iters, b.res, diff.c_str());
                 if (sv.lgmres_keep) { vf::obs_sum("lgmres_keep_steps_exempt"); }      // documented exception: exercised, not compared
                 else c.check(diff.empty(), sname + ":" + step + ":differs-from-fresh-object", "step " + std::to_string(k) + " (" + step + ") on the reused object differs from a freshly constructed object: " + diff,
                              J().n("step", k).s("kind", step).n("rhs", st.rhs).n("x0", st.x0).s("precond", PRECONDS[pk]));
